@@ -723,8 +723,42 @@ def r10_shared_time_date_atoms(ctx):
         for o in fn(ctx):
             yield o
 
+def r11_control_characters(ctx):
+    """"containing a control character": contains_control_character decided by constant propagation - a value that holds
+    any of the control characters the function's own tables name (BEL HT LF VT FF CR FS GS RS US and the extended
+    SOH..ETB set), alone, first, last or in the middle, is reported with a printable name; a value of letters, digits,
+    blanks and punctuation is not; the answer does not depend on the position of the character or on what else the
+    value holds."""
+    from ..absint import run_function, helper_oracles, NotClosedTest
+    fn = ctx.func('validation', 'contains_control_character')
+    hf = helper_oracles(ctx, 'validation')
+    consts = A.module_constants(ctx.mod('validation').tree)
+    CONTROL = [0x07, 0x09, 0x0A, 0x0B, 0x0C, 0x0D, 0x1C, 0x1D, 0x1E, 0x1F, 0x01, 0x02, 0x03, 0x04, 0x05, 0x06, 0x11, 0x12, 0x13, 0x14, 0x15, 0x16, 0x17]
+    bad = []
+    n = 0
+
+    def run(v):
+        try:
+            return run_function(ctx.cfg(fn), fn, [v], hf, env=dict(consts))
+        except (NotClosedTest, A.NotClosed) as e:
+            raise AnalysisError('contains_control_character cannot be decided for %r: %s' % (v, e))
+    for c in CONTROL:
+        for v in (chr(c), 'AB' + chr(c), chr(c) + 'AB', 'A' + chr(c) + 'B', 'A B.' + chr(c) + chr(c)):
+            got = run(v)
+            n += 1
+            if not (isinstance(got, tuple) and len(got) == 2 and got[0] is True and isinstance(got[1], str) and got[1].isprintable() and got[1]):
+                bad.append('a value holding the control character 0x%02X (%r) gives %r' % (c, v, got))
+    for v in ('', ' ', 'ABC', 'abc 123', 'A~B*C:D', '!"&\'()+,-./;?=', '<BEL>', '\\x07', 'A B'):
+        got = run(v)
+        n += 1
+        if got != (False, None):
+            bad.append('the value %r, which holds no control character, gives %r' % (v, got))
+    yield Ob('validation:contains_control_character reports exactly the values that hold a listed control character', not bad, ctx.floc(fn),
+             '' if not bad else bad[0], note='%d values' % n)
+
 
 RULES = [
+    Rule('C15.R11', 'contains_control_character decided for every listed control character x position, and for plain values', r11_control_characters, floor=1),
     Rule('C15.R1', 'reported => result False (path search from every report)', r1_reported_implies_false, floor=15),
     Rule('C15.R2', 'result False => reported (path search to every constant False)', r2_false_implies_reported, floor=11),
     Rule('C15.R3', 'definition sources, numeric length rule, short/long atoms, code acceptance logic, exclusions', r3_sources_and_atoms, floor=12),
